@@ -1,3 +1,110 @@
-import NxModel.Bytes
-/-! driver stub for C11 (replaced when the property's model lands) -/
-def main : IO Unit := IO.println "stub C11"
+import NxModel.Nex.RmcServer
+import NxModel.DriverUtil
+/-! line-protocol driver for the RMC server model (stateful: the table of registered servers)
+  clear                                         -> ok
+  srv <protocol> <noresp 0|1> <methods>         -> ok     methods = `-` or `,`-joined id:supported(0|1):resp(n|s|o|m)
+  react <hex datagram> <hres>                   -> send <hex> | silent | propagate | notreq | crash <Err>
+  gen <protocol> <method> <extract> <user>      -> <hres>             (generated dispatch only)
+  full <hex datagram> <extract> <user>          -> <hres> => <reaction>
+  hres    = ret:<hex> | <exc>          exc = rmc:<int> | type | index | memory | key | other | base
+  extract = ok | <exc>                 user = stub | raise:<exc> | ret:<good|wrong|missing>:<hres>
+-/
+open Nx Nx.Rmc Nx.RmcServer
+
+def parseExc (s : String) : Option Exc :=
+  match s.splitOn ":" with
+  | ["rmc", c] => c.toInt?.map .rmcError
+  | ["type"] => some .typeError
+  | ["index"] => some .indexError
+  | ["memory"] => some .memoryError
+  | ["key"] => some .keyError
+  | ["other"] => some .other
+  | ["base"] => some .base
+  | _ => none
+
+def parseHres (s : String) : Option HandleResult :=
+  match s.splitOn ":" with
+  | ["ret", h] => (fromHex h).map .returned
+  | _ => (parseExc s).map .raised
+
+def showExc : Exc → String
+  | .rmcError c => s!"rmc:{c}"
+  | .typeError => "type" | .indexError => "index" | .memoryError => "memory"
+  | .keyError => "key" | .other => "other" | .base => "base"
+
+def showHres : HandleResult → String
+  | .returned o => "ret:" ++ hexOut o
+  | .raised e => showExc e
+
+def showReaction : Reaction → String
+  | .sends d => "send " ++ hexOut d
+  | .silent => "silent"
+  | .propagates => "propagate"
+
+def parseMethod (s : String) : Option Method :=
+  match s.splitOn ":" with
+  | [i, sup, r] =>
+    match i.toNat?, (if r = "n" then some RespKind.none else if r = "s" then some (.single false)
+                      else if r = "o" then some (.single true) else if r = "m" then some .multi else none) with
+    | some id, some resp => if sup = "0" ∨ sup = "1" then some { id, supported := sup = "1", resp } else none
+    | _, _ => none
+  | _ => none
+
+def parseMethods (s : String) : Option (List Method) :=
+  if s = "-" then some [] else (s.splitOn ",").mapM parseMethod
+
+def parseUser (s : String) : Option User :=
+  if s = "stub" then some .stub
+  else if s.startsWith "raise:" then (parseExc (s.drop 6).toString).map .raises
+  else if s.startsWith "ret:good:" then (parseHres (s.drop 9).toString).map (.returns .good)
+  else if s.startsWith "ret:wrong:" then (parseHres (s.drop 10).toString).map (.returns .wrongType)
+  else if s.startsWith "ret:missing:" then (parseHres (s.drop 12).toString).map (.returns .missingField)
+  else none
+
+def parseExtract (s : String) : Option (Option Exc) :=
+  if s = "ok" then some none else (parseExc s).map some
+
+def findServer (p : Nat) : List Server → Option Server
+  | [] => none
+  | s :: r => if s.protocol = p then some s else findServer p r
+
+def stepLine (tbl : List Server) (line : String) : List Server × String :=
+  match line.splitOn " " with
+  | ["clear"] => ([], "ok")
+  | ["srv", p, nr, ms] =>
+    match p.toNat?, parseMethods ms with
+    | some p, some ms =>
+      if nr = "0" ∨ nr = "1" then
+        ({ protocol := p, noresponse := nr = "1", methods := ms } :: tbl.filter (·.protocol ≠ p), "ok")
+      else (tbl, "bad-op")
+    | _, _ => (tbl, "bad-op")
+  | ["react", h, r] =>
+    match fromHex h, parseHres r with
+    | some d, some hres =>
+      match decode d with
+      | .error e => (tbl, "crash " ++ e.name)
+      | .ok m => if m.mode ≠ 0 then (tbl, "notreq") else (tbl, showReaction (react (registryOf tbl) m hres))
+    | _, _ => (tbl, "bad-op")
+  | ["gen", p, m, ex, u] =>
+    match p.toNat?, m.toNat?, parseExtract ex, parseUser u with
+    | some p, some m, some ex, some u =>
+      match findServer p tbl with
+      | some srv => (tbl, showHres (generatedHandle srv m ex u))
+      | none => (tbl, "nosrv")
+    | _, _, _, _ => (tbl, "bad-op")
+  | ["full", h, ex, u] =>
+    match fromHex h, parseExtract ex, parseUser u with
+    | some d, some ex, some u =>
+      match decode d with
+      | .error e => (tbl, "crash " ++ e.name)
+      | .ok m =>
+        if m.mode ≠ 0 then (tbl, "notreq") else
+        match findServer m.protocol tbl, m.method with
+        | some srv, some mid =>
+          let hres := generatedHandle srv mid ex u
+          (tbl, showHres hres ++ " => " ++ showReaction (react (registryOf tbl) m hres))
+        | _, _ => (tbl, "nosrv => " ++ showReaction (react (registryOf tbl) m (.returned [])))
+    | _, _, _ => (tbl, "bad-op")
+  | _ => (tbl, "bad-op")
+
+def main : IO Unit := runState ([] : List Server) stepLine
